@@ -22,6 +22,8 @@ type writeLog struct {
 }
 
 type specOutcome struct {
+	env      map[ssa.Value]Value
+	visited  map[*ssa.BasicBlock]bool
 	returned bool
 	result   Value
 	final    map[*Value]Value
@@ -189,6 +191,14 @@ func (fr *frame) speculate(from, succ, join *ssa.BasicBlock, guard *Term) (out *
 	savedBlock, savedPrev, savedDefers := fr.block, fr.prev, len(fr.defers)
 	savedOverride := fr.phiOverride
 	fr.phiOverride = nil
+	envSnap := fr.env
+	armEnv := make(map[ssa.Value]Value, len(envSnap)+16)
+	for k, v := range envSnap {
+		armEnv[k] = v
+	}
+	fr.env = armEnv
+	savedVisit := fr.visited
+	fr.visited = map[*ssa.BasicBlock]bool{}
 	savedDepth, savedCur := in.depth, len(in.curFrames)
 	stepLimit := in.steps + maxSpecSteps
 	savedLimit := in.specStepLimit
@@ -219,7 +229,7 @@ func (fr *frame) speculate(from, succ, join *ssa.BasicBlock, guard *Term) (out *
 		}()
 		fr.prev, fr.block = from, succ
 		returned := fr.runUntil(join)
-		o := &specOutcome{returned: returned, result: fr.result, final: map[*Value]Value{}, phis: map[*ssa.Phi]Value{}, ndefers: len(fr.defers)}
+		o := &specOutcome{env: armEnv, visited: fr.visited, returned: returned, result: fr.result, final: map[*Value]Value{}, phis: map[*ssa.Phi]Value{}, ndefers: len(fr.defers)}
 		for p := range log.old {
 			o.final[p] = copyVal(*p)
 		}
@@ -257,6 +267,13 @@ func (fr *frame) speculate(from, succ, join *ssa.BasicBlock, guard *Term) (out *
 	in.depth, in.curFrames = savedDepth, in.curFrames[:savedCur]
 	fr.block, fr.prev, fr.result = savedBlock, savedPrev, nil
 	fr.phiOverride = savedOverride
+	fr.env = envSnap
+	if savedVisit != nil {
+		for b := range fr.visited {
+			savedVisit[b] = true
+		}
+	}
+	fr.visited = savedVisit
 	if out != nil && out.ndefers != savedDefers {
 		out = nil
 		in.SpecAborts["defer in arm"]++
@@ -340,7 +357,67 @@ func (fr *frame) tryMerge(instr *ssa.If, c *Term) (bool, int) {
 			phis[phi] = m
 		}
 	}
+	// SSA registers (re)defined inside the region and still used outside it
+	envUpd := map[ssa.Value]Value{}
+	if !a.returned {
+		inRegion := func(b *ssa.BasicBlock) bool { return a.visited[b] || bb.visited[b] }
+		consider := func(v ssa.Value) bool {
+			if _, done := envUpd[v]; done {
+				return true
+			}
+			va, inA := a.env[v]
+			vb, inB := bb.env[v]
+			old, had := fr.env[v]
+			if !inA {
+				va = old
+			}
+			if !inB {
+				vb = old
+			}
+			if had && sameRef(va, old) && sameRef(vb, old) {
+				return true
+			}
+			// is it used outside the region?
+			usedOutside := false
+			if refs := v.Referrers(); refs != nil {
+				for _, r := range *refs {
+					if !inRegion(r.Block()) {
+						usedOutside = true
+						break
+					}
+				}
+			}
+			if !usedOutside {
+				return true
+			}
+			if (!inA && !had) || (!inB && !had) {
+				// defined on one arm only but used later: only legal through a phi
+				return true
+			}
+			m, ok := mergeVal(c, va, vb)
+			if !ok {
+				return false
+			}
+			envUpd[v] = m
+			return true
+		}
+		for v := range a.env {
+			if !consider(v) {
+				in.SpecAborts["unmergeable live register"]++
+				return false, 0
+			}
+		}
+		for v := range bb.env {
+			if !consider(v) {
+				in.SpecAborts["unmergeable live register"]++
+				return false, 0
+			}
+		}
+	}
 	// commit
+	for v, m := range envUpd {
+		fr.env[v] = m
+	}
 	for p, v := range merged {
 		in.storeTo(p, v)
 	}
@@ -355,6 +432,33 @@ func (fr *frame) tryMerge(instr *ssa.If, c *Term) (bool, int) {
 	fr.phiOverride = phis
 	fr.prev, fr.block = nil, join
 	return true, kJump
+}
+
+// sameRef: cheap identity test used to skip registers untouched by an arm.
+func sameRef(a, b Value) bool {
+	switch x := a.(type) {
+	case *Term:
+		y, ok := b.(*Term)
+		return ok && x == y
+	case string:
+		y, ok := b.(string)
+		return ok && x == y
+	case *Value:
+		y, ok := b.(*Value)
+		return ok && x == y
+	case *Map:
+		y, ok := b.(*Map)
+		return ok && x == y
+	case *Opaque:
+		y, ok := b.(*Opaque)
+		return ok && x == y
+	case Slice:
+		y, ok := b.(Slice)
+		return ok && sameSliceHeader(x, y)
+	case nil:
+		return b == nil
+	}
+	return false
 }
 
 func sameSliceHeader(a, b Slice) bool {
